@@ -3,8 +3,8 @@
     This file contains only statements, [exact], and [Print Assumptions]. *)
 From Coq Require Import String List NArith ZArith.
 From Fabio Require Import Lib.Outcome Lib.Bytes Model.FlagSet Model.KVSlice Model.GlobCacheSize
-     Model.StartUp Model.LoadArgs Proofs.FlagSet Proofs.KVSlice Proofs.GlobCacheSize Proofs.StartUp
-     Proofs.LoadArgs.
+     Model.StartUp Model.LoadArgs Model.EnumOptions Proofs.FlagSet Proofs.KVSlice Proofs.GlobCacheSize
+     Proofs.StartUp Proofs.LoadArgs Proofs.EnumOptions.
 Import ListNotations.
 Local Open Scope N_scope.
 
@@ -306,6 +306,121 @@ Theorem C15_accepted_runnable_metrics_interval_refuted : forall interval,
   load_then_start_metrics_unrepaired interval true = Panic.
 Proof. exact unrepaired_metrics_interval_panics. Qed.
 Print Assumptions C15_accepted_runnable_metrics_interval_refuted.
+
+(* ---- the enumerated options proxy.strategy, proxy.matcher, ui.access (Model/EnumOptions.v) ----
+   Accepted => runnable: with a configuration config.Load returned, no lookup at any of the
+   consumers main() builds (HTTP proxy, TCP+SNI host lookups, gRPC interceptor) panics, whatever
+   routes and numbers of targets the routing table holds, and the admin server implements the
+   access mode. *)
+Theorem C15_enum_accepted_runnable : forall s m a c,
+  load_enums s m a = Ok c ->
+  (forall site keys, en_site_lookup c site keys <> Panic) /\ admin_mode_of (e_access c) <> None.
+Proof. exact enum_accepted_runnable. Qed.
+Print Assumptions C15_enum_accepted_runnable.
+
+(* Load, then a lookup: an error of Load, or a result -- for every triple of values, every
+   consumer and every table *)
+Theorem C15_enum_load_then_lookup : forall s m a site keys,
+  load_then_lookup s m a site keys = Err 1 \/ exists r, load_then_lookup s m a site keys = Ok r.
+Proof. exact load_then_lookup_runnable. Qed.
+Print Assumptions C15_enum_load_then_lookup.
+
+(* the verdict of Load, as lists of admissible values (case-sensitive, nothing trimmed) ... *)
+Theorem C15_enum_accept_iff : forall s m a,
+  is_ok (load_enums s m a) = true <->
+  In (en_or en_default_strategy s) [bs "rr"; bs "rnd"] /\
+  In (en_or en_default_matcher m) [bs "prefix"; bs "glob"; bs "iprefix"] /\
+  In (en_or en_default_access a) [bs "ro"; bs "rw"].
+Proof. exact enum_accept_iff. Qed.
+Print Assumptions C15_enum_accept_iff.
+
+(* ... which are exactly the values the consumers implement: nothing runnable is rejected *)
+Theorem C15_enum_accept_iff_implemented : forall s m a,
+  is_ok (load_enums s m a) = true <->
+  picker_of (en_or en_default_strategy s) <> None /\
+  matcher_of (en_or en_default_matcher m) <> None /\
+  admin_mode_of (en_or en_default_access a) <> None.
+Proof. exact enum_accept_iff_implemented. Qed.
+Print Assumptions C15_enum_accept_iff_implemented.
+
+(* the returned configuration carries the values as given (the consumers index their maps with
+   these very strings, so a validation that folds case must store the folded value) *)
+Theorem C15_enum_stored_as_given : forall s m a c,
+  load_enums s m a = Ok c ->
+  e_strategy c = en_or en_default_strategy s /\
+  e_matcher c = en_or en_default_matcher m /\
+  e_access c = en_or en_default_access a.
+Proof. exact enum_stored_as_given. Qed.
+Print Assumptions C15_enum_stored_as_given.
+
+(* why the validation has to be exact: a strategy outside the picker map panics on the first
+   request that matches a route with two or more targets, while one-target routes keep working;
+   a matcher outside the matcher map panics on the first route looked at *)
+Theorem C15_enum_unknown_strategy_not_runnable : forall s mk r n,
+  picker_of s = None -> en_call_match (Some mk) r = Ok true -> rt_targets r = n -> 2 <= n ->
+  en_lookup (picker_of s) (Some mk) [r] 0 = Panic.
+Proof. exact unknown_strategy_not_runnable. Qed.
+Print Assumptions C15_enum_unknown_strategy_not_runnable.
+
+Theorem C15_enum_unknown_strategy_single_target_works : forall s mk r,
+  picker_of s = None -> en_call_match (Some mk) r = Ok true -> rt_targets r = 1 ->
+  en_lookup (picker_of s) (Some mk) [r] 0 = Ok (Some (FoundOnly 0)).
+Proof. exact unknown_strategy_single_target_works. Qed.
+Print Assumptions C15_enum_unknown_strategy_single_target_works.
+
+Theorem C15_enum_unknown_matcher_not_runnable : forall m p r rest,
+  matcher_of m = None -> en_lookup p (matcher_of m) (r :: rest) 0 = Panic.
+Proof. exact unknown_matcher_not_runnable. Qed.
+Print Assumptions C15_enum_unknown_matcher_not_runnable.
+
+Theorem C15_enum_values_case_sensitive :
+  picker_of (bs "RR") = None /\ picker_of (bs "Rnd") = None /\ matcher_of (bs "Glob") = None /\
+  admin_mode_of (bs "RO") = None /\
+  load_enums (Some (bs "RR")) None None = Err 1 /\
+  load_enums None (Some (bs "Glob")) None = Err 1 /\
+  load_enums None None (Some (bs "RO")) = Err 1.
+Proof. exact enum_values_case_sensitive. Qed.
+Print Assumptions C15_enum_values_case_sensitive.
+
+(* The same effect from every source with the fixed precedence: for every argument list,
+   environment block and file, what Load does with the three options is what it does with the
+   value of the first present source of each ... *)
+Theorem C15_enum_load_by_first_present_source : forall args environ props calls,
+  parse_args enum_flags en_no_bad args [] = Ok calls ->
+  load_enums_from args environ props
+  = load_enums (spec_choice calls environ props en_strategy_name)
+               (spec_choice calls environ props en_matcher_name)
+               (spec_choice calls environ props en_access_name).
+Proof. exact enum_load_by_first_present_source. Qed.
+Print Assumptions C15_enum_load_by_first_present_source.
+
+(* ... it never panics, and whatever it accepts can be run *)
+Theorem C15_enum_load_from_never_panics : forall args environ props,
+  load_enums_from args environ props <> Panic.
+Proof. exact enum_load_from_never_panics. Qed.
+Print Assumptions C15_enum_load_from_never_panics.
+
+Theorem C15_enum_load_from_sources_runnable : forall args environ props c,
+  load_enums_from args environ props = Ok c ->
+  (forall site keys, en_site_lookup c site keys <> Panic) /\ admin_mode_of (e_access c) <> None.
+Proof. exact enum_load_from_sources_runnable. Qed.
+Print Assumptions C15_enum_load_from_sources_runnable.
+
+Theorem C15_enum_runnable_nonvacuous :
+  let args := [bs "-proxy.strategy=rr"] in
+  let env := [bs "Fabio_Proxy_Matcher=glob"; bs "proxy_strategy=RR"] in
+  let props := Some [(bs "ui.access", bs "ro"); (bs "proxy.matcher", bs "Glob")] in
+  let c := {| e_strategy := bs "rr"; e_matcher := bs "glob"; e_access := bs "ro" |} in
+  let two := {| rt_prefix := false; rt_glob := true; rt_iprefix := false; rt_targets := 2 |} in
+  let one := {| rt_prefix := true; rt_glob := false; rt_iprefix := true; rt_targets := 1 |} in
+  load_enums_from args env props = Ok c /\
+  en_site_lookup c 0 [[one; two]] = Ok (Some (0%nat, FoundPicked 1 PickRR)) /\
+  en_site_lookup c 1 [[one; two]] = Ok (Some (0%nat, FoundOnly 0)) /\
+  admin_mode_of (e_access c) = Some AdminForbidden /\
+  load_enums_from [] [bs "proxy_strategy=RR"] None = Err 1 /\
+  en_lookup (picker_of (bs "RR")) (Some MatchGlob) [two] 0 = Panic.
+Proof. exact enum_runnable_nonvacuous. Qed.
+Print Assumptions C15_enum_runnable_nonvacuous.
 
 (* non-vacuity: all five sources at once -- a successful ParseFlags in which the command line
    wins, then FABIO_, then the plain variable, then the file, then nothing *)
